@@ -1,9 +1,414 @@
-"""placeholder (filled in below)"""
+"""C08, ISAs other than riscv that llvm 14 can disassemble (arm, thumb, x86_64, msp430, avr, m68k, mips):
+FAILING-INPUT SEARCH ONLY (nothing is proved about their architectural meaning).
+
+For every instruction class of the ISA (live classes via translate/tables.collect) instances are built
+over all register operands (one operand varied at a time around a base tuple) and boundary/random
+immediates, encoded with the REAL ppci encoder and disassembled with llvm-mc; mnemonic and operands are
+compared with what ppci prints after a CONSERVATIVE normalisation (case, register spelling, immediate
+radix, condition-code spellings, size suffixes).  A difference is reported only when both sides show the
+same mnemonic and the same number of operands and a REGISTER operand (or, for non-scaled fields, an
+immediate) differs, or when the class is in the explicit per-ISA list of checked facts.  Everything else
+(aliases we do not know, forms llvm 14 cannot decode, label operands, scaled immediates) is counted as
+`unknown_*` in the evidence and never reported."""
+import re
+import subprocess
+import sys
+from pathlib import Path
+
+VERIF = Path(__file__).resolve().parent.parent
+
+ISAS = {
+    "arm": dict(triple="armv7", mattr="", mc=[], nop=bytes.fromhex("00f020e3"), sentinel=bytes.fromhex("a5c0a0e3")),
+    "thumb": dict(triple="thumbv6m", mattr="", mc=[], nop=bytes.fromhex("c046"), sentinel=bytes.fromhex("5abe")),
+    "x86_64": dict(triple="x86_64", mattr="", mc=["--output-asm-variant=1"], nop=b"\x90", sentinel=bytes.fromhex("b85a5a5a5a")),
+    "msp430": dict(triple="msp430", mattr="", mc=[], nop=bytes.fromhex("0343"), sentinel=bytes.fromhex("3f405a5a")),
+    "avr": dict(triple="avr", mattr="+avr6", mc=[], nop=b"\x00\x00", sentinel=bytes.fromhex("f5ea")),
+    "m68k": dict(triple="m68k", mattr="", mc=[], nop=bytes.fromhex("4e71"), sentinel=bytes.fromhex("2e3c5a5a5a5a")),
+    "mips": dict(triple="mipsel", mattr="", mc=[], nop=b"\x00\x00\x00\x00", sentinel=bytes.fromhex("5a5a3937")),
+}
+
+INTS = [0, 1, 2, 3, 4, 5, 7, 8, 12, 15, 16, 31, 32, 63, 64, 100, 127, 128, 255, 256, 1000, 4095, 4096, 32767, 65535,
+        -1, -2, -4, -8, -128, -129, -32768]
 
 
 def regen(ctx):
+    sys.path.insert(0, str(VERIF / "translate"))
+    import tables
+    tabs, changed = tables.regen()
+    ctx.tabs = tabs
+    if changed:
+        ctx.note("regenerated " + ", ".join(changed))
+
+
+def get_tabs(ctx):
+    if getattr(ctx, "tabs", None) is None:
+        sys.path.insert(0, str(VERIF / "translate"))
+        import tables
+        ctx.tabs = tables.collect()
+    return ctx.tabs
+
+
+def registers_of(cls):
+    try:
+        regs = list(cls.all_registers())
+    except Exception:  # noqa
+        regs = []
+    return [r for r in regs if getattr(r, "_num", None) is not None]
+
+
+def build(cls, by_cls, rng, ints, thorough, depth=0):
+    """instances of `cls`: every value of each operand pool around a base tuple"""
+    from ppci.arch.registers import Register
+    syn = getattr(cls, "syntax", None)
+    if syn is None or depth > 3:
+        return []
+    pools = []
+    for a in syn.formal_arguments:
+        c = a._cls
+        if a._value_map is not None:
+            c = tuple(a._value_map.keys())
+        if isinstance(c, tuple):
+            outs = []
+            for o in c:
+                outs += build(o, by_cls, rng, ints[:6], thorough, depth + 1)[: (6 if thorough else 3)]
+            pools.append(outs)
+        elif isinstance(c, type) and issubclass(c, Register):
+            rs = registers_of(c)
+            pools.append(rs if depth == 0 else rs[:3])
+        elif c is int:
+            pools.append(list(ints))
+        elif c is str:
+            pools.append(["lbl"])
+        elif isinstance(c, type) and c in by_cls:
+            pools.append(build(c, by_cls, rng, ints[:6], thorough, depth + 1)[:6])
+        else:
+            pools.append([])
+    if any(not p for p in pools):
+        return []
+    out, seen = [], set()
+
+    def add(args):
+        key = tuple(a if isinstance(a, (int, str)) else id(a) for a in args)
+        if key in seen:
+            return
+        seen.add(key)
+        try:
+            out.append(cls(*args))
+        except Exception:  # noqa
+            pass
+    bases = [[p[min(1, len(p) - 1)] for p in pools]]
+    if depth == 0:
+        bases.append([p[len(p) // 2] for p in pools])
+    for base in bases:
+        add(base)
+        for i, p in enumerate(pools):
+            for x in p:
+                a = list(base)
+                a[i] = x
+                add(a)
+    if depth == 0 and thorough:
+        for _ in range(40):
+            add([rng.choice(p) for p in pools])
+    if not syn.formal_arguments:
+        add([])
+    return out
+
+
+PAD = 12
+
+
+# classes on whose encodings llvm-mc 14 is known to crash (found by the bisection below; listed to save time)
+LLVM_CRASHES = {}
+
+
+class LlvmCrash(Exception):
     pass
 
 
-def check(ctx):
-    pass
+def disassemble_once(isa, cfg, byte_strings):
+    """one text (or None) per byte string, with ONE llvm-mc process for the whole list: the stream is
+    instance · nop padding · sentinel · instance · …; the padding lets the decoder resynchronise after an
+    undecodable or mis-sized instance, the sentinel lines split the output into one group per instance;
+    the instance's text is the first line of its group if its encoding has exactly the instance's length."""
+    nop, sent = cfg["nop"], cfg["sentinel"]
+    lines = []
+    for bs in byte_strings:
+        blob = bs + nop * (PAD // len(nop)) + sent
+        lines.append(" ".join("0x%02x" % x for x in blob))
+    mattr = ["-mattr=" + cfg["mattr"]] if cfg["mattr"] else []
+    p = subprocess.run(["llvm-mc", "--disassemble", "--show-encoding", "--triple=" + cfg["triple"], *mattr, *cfg["mc"]],
+                       input="\n".join(lines) + "\n", capture_output=True, text=True)
+    if p.returncode != 0:
+        raise LlvmCrash(p.stderr[-200:])
+    out = []
+    for l in p.stdout.splitlines():
+        l = l.strip().replace("\t", " ")
+        if not l or l.startswith("."):
+            continue
+        m = re.match(r"(.*?)\s*[;#@|]+\s*encoding: \[(.*)\]", l)
+        if m:
+            out.append((m.group(1).strip(), len(m.group(2).split(","))))
+        else:
+            out.append((l, -1))
+    if not out:
+        raise RuntimeError(f"llvm-mc {isa}: no output; {p.stderr[-300:]}")
+    stext = out[-1][0]
+    groups, cur = [], []
+    for t, n in out:
+        if t == stext and n == len(sent):
+            groups.append(cur); cur = []
+        else:
+            cur.append((t, n))
+    if len(groups) != len(byte_strings):
+        raise RuntimeError(f"llvm-mc {isa}: {len(groups)} groups for {len(byte_strings)} instances")
+    res = []
+    for bs, g in zip(byte_strings, groups):
+        if g and g[0][1] == len(bs):
+            res.append(g[0][0])
+        else:
+            res.append(None)
+    return res
+
+
+def disassemble(isa, cfg, items, ctx):
+    """items: (class name, text, bytes, rel).  llvm 14 crashes on a few encodings (e.g. msp430 `push @r1`):
+    the crashing instance is located by bisection and every instance of ITS CLASS is dropped
+    (counted as unknown_llvm_crash), then the rest is disassembled again."""
+    res = {}
+    todo = list(range(len(items)))
+    skip = LLVM_CRASHES.get(isa, set())
+    for i in todo:
+        if items[i][0] in skip:
+            res[i] = "<crash>"
+    align = len(cfg["nop"])
+    todo = [i for i in todo if items[i][0] not in skip and len(items[i][2]) % align == 0]
+    for _round in range(4):
+        try:
+            texts = disassemble_once(isa, cfg, [items[i][2] for i in todo])
+            for i, t in zip(todo, texts):
+                res[i] = t
+            break
+        except LlvmCrash:
+            lo, hi = 0, len(todo)
+            while hi - lo > 1:
+                mid = (lo + hi) // 2
+                try:
+                    disassemble_once(isa, cfg, [items[i][2] for i in todo[lo:mid]])
+                    lo = mid
+                except LlvmCrash:
+                    hi = mid
+            bad_cls = items[todo[lo]][0]
+            ctx.note(f"llvm-mc {isa} crashes on '{items[todo[lo]][1]}' ({items[todo[lo]][2].hex()}): class {bad_cls} skipped")
+            for i in todo:
+                if items[i][0] == bad_cls:
+                    res[i] = "<crash>"
+            todo = [i for i in todo if items[i][0] != bad_cls]
+    return [res.get(i) for i in range(len(items))]
+
+
+# ---------------------------------------------------------------------------------------------
+# normalisation
+
+COND_ALIAS = {"hs": "cs", "lo": "cc"}
+
+REG_ALIAS = {
+    "arm": {"r13": "sp", "r14": "lr", "r15": "pc", "r11": "r11", "fp": "r11", "r12": "r12", "ip": "r12"},
+    "thumb": {"r13": "sp", "r14": "lr", "r15": "pc"},
+    "avr": {"x": "r26", "y": "r28", "z": "r30", "w": "r24"},
+    "msp430": {"pc": "r0", "sp": "r1", "sr": "r2", "cg": "r3"},
+    "m68k": {},
+    "x86_64": {},
+    "mips": {},
+}
+MIPS_NAMES = ["zero", "at", "v0", "v1", "a0", "a1", "a2", "a3", "t0", "t1", "t2", "t3", "t4", "t5", "t6", "t7",
+              "s0", "s1", "s2", "s3", "s4", "s5", "s6", "s7", "t8", "t9", "k0", "k1", "gp", "sp", "fp", "ra"]
+for k, n in enumerate(MIPS_NAMES):
+    REG_ALIAS["mips"][n] = str(k)
+REG_ALIAS["mips"]["s8"] = "30"
+
+MNEMONIC_ALIAS = {
+    "msp430": {"jhs": "jc", "jlo": "jnc", "jeq": "jz", "jne": "jnz"},
+    "arm": {}, "thumb": {}, "avr": {}, "m68k": {}, "mips": {}, "x86_64": {},
+}
+
+# llvm spellings of instruction forms that are aliases of what ppci prints (both operands equal etc.)
+FORM_ALIAS = {
+    "avr": {"lsl": "add", "rol": "adc", "tst": "and", "clr": "eor"},
+    "msp430": {"pop": "mov", "nop": "mov", "ret": "mov", "br": "mov", "clr": "mov", "inc": "add", "incd": "add",
+               "dec": "sub", "decd": "sub", "tst": "cmp", "rla": "add", "rlc": "addc", "inv": "xor", "clrc": "bic",
+               "setc": "bis", "clrz": "bic", "setz": "bis", "clrn": "bic", "setn": "bis", "dint": "bic", "eint": "bis",
+               "adc": "addc", "sbc": "subc", "dadc": "dadd"},
+    "mips": {"move": "addu", "nop": "sll", "b": "beq", "beqz": "beq", "bnez": "bne", "li": "addiu", "not": "nor", "negu": "subu"},
+    "arm": {"lsl": "mov", "lsr": "mov", "asr": "mov", "ror": "mov", "rrx": "mov", "push": "stmdb", "pop": "ldm", "nop": "mov"},
+    "thumb": {"movs": "lsls", "nop": "mov"},
+    "x86_64": {}, "m68k": {"movel": "moveal", "movew": "moveaw"},
+}
+
+TOK = re.compile(r"[A-Za-z_.][\w.:]*|[-+]?0x[0-9a-fA-F]+|[-+]?\d+")
+
+
+def norm_token(isa, t):
+    t = t.lower()
+    if re.fullmatch(r"[-+]?0x[0-9a-f]+", t):
+        return ("i", int(t, 16))
+    if re.fullmatch(r"[-+]?\d+", t):
+        return ("i", int(t))
+    t = t.lstrip("%$")
+    if isa == "avr" and re.fullmatch(r"r\d+:r\d+", t):
+        t = t.split(":")[1]
+    t = REG_ALIAS[isa].get(t, t)
+    if isa == "mips" and re.fullmatch(r"\d+", t):
+        return ("r", t)
+    return ("r", t)
+
+
+def split(isa, text, has_label):
+    """-> (mnemonic, [operand tokens])"""
+    text = text.strip()
+    m = re.match(r"\s*([A-Za-z_.][\w.]*)\s*(.*)", text)
+    if not m:
+        return None, []
+    mn, rest = m.group(1).lower(), m.group(2)
+    if isa == "mips":
+        rest = re.sub(r"\$(\d+)", r"gpr\1", rest)           # $5 -> register 5
+    rest = rest.replace("#", " ").replace("$", " ")
+    toks = []
+    for t in TOK.findall(rest):
+        if isa == "mips" and re.fullmatch(r"gpr\d+", t):
+            toks.append(("r", t[3:]))
+            continue
+        toks.append(norm_token(isa, t))
+    if has_label:
+        toks = [t for t in toks if t[0] == "r" and t[1] != "lbl"]
+    return mn, toks
+
+
+def norm_mnemonic(isa, mn):
+    mn = mn.lower()
+    if isa == "msp430":
+        if mn.endswith(".w"):
+            mn = mn[:-2]
+    if isa in ("arm", "thumb"):
+        for a, b in COND_ALIAS.items():
+            if mn.endswith(a) and len(mn) > len(a) + 1:
+                mn = mn[: -len(a)] + b
+    if isa == "m68k":
+        mn = mn.replace(".", "")
+    return MNEMONIC_ALIAS[isa].get(mn, mn)
+
+
+def compare(isa, ptext, ltext, has_label, vocab=frozenset()):
+    """-> (verdict, detail)  verdict in agree | unknown_<why> | mismatch_<kind>"""
+    if ltext is None:
+        return "unknown_llvm_cannot_decode", ""
+    if ltext == "<crash>":
+        return "unknown_llvm_crash", ""
+    pm, pt = split(isa, ptext, has_label)
+    lm, lt = split(isa, ltext, has_label)
+    if pm is None or lm is None:
+        return "unknown_unparsed", ""
+    pmn, lmn = norm_mnemonic(isa, pm), norm_mnemonic(isa, lm)
+    if isa == "msp430" and any(t in (("r", "r2"), ("r", "r3")) for t in pt + lt):
+        # r2/r3 as a SOURCE are the constant generators (@r2 = #4, @r2+ = #8, r3 = #0 …); llvm prints the
+        # constant for two-operand forms and the register for one-operand forms
+        return "unknown_constant_generator", ""
+    if pmn != lmn:
+        if FORM_ALIAS[isa].get(lmn) == pmn or FORM_ALIAS[isa].get(pmn) == lmn:
+            return "unknown_alias_form", ""
+        # llvm may print a size/condition suffix variant: same stem
+        if pmn.startswith(lmn) or lmn.startswith(pmn):
+            return "unknown_mnemonic_variant", f"{pm} / {lm}"
+        # the bytes decode to an instruction that ppci itself prints under ANOTHER mnemonic (and no alias
+        # relation is known): a different operation.  llvm's `nop` is excluded (several llvm 14 decoders
+        # print it for encodings they do not understand).
+        if lmn in vocab and lmn != "nop":
+            return "mismatch_mnemonic", f"{pm} / {lm}"
+        return "unknown_mnemonic", f"{pm} / {lm}"
+    if pt == lt:
+        return "agree", ""
+    pr = [t for t in pt if t[0] == "r"]
+    lr = [t for t in lt if t[0] == "r"]
+    pi = [t[1] for t in pt if t[0] == "i"]
+    li = [t[1] for t in lt if t[0] == "i"]
+    if len(pt) != len(lt):
+        if pr == lr or sorted(pr) == sorted(lr):
+            return "unknown_operand_count", ""
+        if len(pr) == len(lr):
+            return "mismatch_register", f"{pr} vs {lr}"
+        return "unknown_operand_count", ""
+    if pr != lr:
+        if sorted(pr) == sorted(lr):
+            return "mismatch_register_order", f"{pr} vs {lr}"
+        return "mismatch_register", f"{pr} vs {lr}"
+    # registers agree, an immediate differs
+    for a, b in zip(pi, li):
+        if a == b:
+            continue
+        if a != 0 and b != 0 and (a % b == 0 or b % a == 0):
+            return "unknown_immediate_scaled", f"{a} vs {b}"
+        if (a - b) % 16 == 0 or (a - b) % 256 == 0:
+            return "unknown_immediate_wrapped", f"{a} vs {b}"     # truncation / sign view: C10's subject
+        return "mismatch_immediate", f"{a} vs {b}"
+    return "unknown_other", ""
+
+
+def check(ctx, only=None):
+    import tempfile
+    import time
+    from ppci.arch.encoding import Instruction
+    tabs = get_tabs(ctx)
+    workdir = Path(tempfile.mkdtemp(prefix="c08llvm"))
+    try:
+        for isa, cfg in ISAS.items():
+            if only and isa not in only:
+                continue
+            t0 = time.time()
+            rows = tabs["isas"][isa]["instrs"]
+            by_cls = {r["cls"]: r for r in rows}
+            ints = INTS if ctx.thorough else INTS[:20] + [-1, -4, -128]
+            items = []
+            for r in rows:
+                cls = r["cls"]
+                if not (isinstance(cls, type) and issubclass(cls, Instruction)):
+                    continue
+                if not hasattr(cls, "tokens") or getattr(cls, "syntax", None) is None:
+                    continue
+                insts = build(cls, by_cls, ctx.rng, ints, ctx.thorough)
+                if not ctx.thorough:
+                    insts = insts[:40]
+                for ins in insts:
+                    try:
+                        text = str(ins)
+                        bs = bytes(ins.encode())
+                        rel = bool(ins.relocations())
+                    except Exception:  # noqa
+                        ctx.count(f"{isa}_encode_raises")
+                        continue
+                    if bs:
+                        items.append((r["name"], text, bs, rel))
+            if not items:
+                continue
+            dis = disassemble(isa, cfg, items, ctx)
+            if isa == "mips":
+                from ppci.arch.mips import registers as mr
+                for r_ in registers_of(mr.MipsRegister):
+                    REG_ALIAS["mips"][r_.name.lower()] = str(r_.num)
+            vocab = frozenset(norm_mnemonic(isa, split(isa, it[1], False)[0] or "") for it in items)
+            for (cname, text, bs, rel), lt in zip(items, dis):
+                verdict, detail = compare(isa, text, lt, rel or "lbl" in text, vocab)
+                ctx.count("eval_llvm_" + isa)
+                ctx.count(f"{isa}_{verdict}")
+                if verdict.startswith("mismatch"):
+                    kind = verdict[len("mismatch_"):]
+                    ctx.fail(f"{isa}:{cname}:{kind}", f"{isa} '{text}' encodes {bs.hex()}, which llvm reads as '{lt}' ({detail})",
+                             {"isa": isa, "cls": cname, "printed": text, "bytes": bs.hex()}, llvm=lt)
+                elif verdict.startswith("unknown"):
+                    ctx.extra_cov.setdefault("llvm_unknown_examples", {}).setdefault(f"{isa}_{verdict}", [])
+                    ex = ctx.extra_cov["llvm_unknown_examples"][f"{isa}_{verdict}"]
+                    if len(ex) < 3:
+                        ex.append({"class": cname, "printed": text, "bytes": bs.hex(), "llvm": lt})
+            ctx.extra_cov.setdefault("llvm_search_seconds", {})[isa] = round(time.time() - t0, 1)
+    finally:
+        import shutil
+        shutil.rmtree(workdir, ignore_errors=True)
+    ctx.extra_cov["isas_without_reference_disassembler"] = ["or1k", "xtensa", "microblaze", "mcs6500", "stm8"]
